@@ -524,6 +524,12 @@ func c13Eval(cw *c13world, c *c13case, md protoreflect.MethodDescriptor) (string
 	sessBefore := cw.victimSessions()
 	code, emsg, rb := c13call(cw.w, path, streaming, body, cw.headers(svc, c.Cred))
 	cw.w.WaitBackground()
+	// a valid call on the attacker's own project may have changed its keys
+	// (RotateProjectKeys, UpdateProject): keep using the current ones, or every
+	// later case with the attacker's key would silently be an unauthenticated one
+	if info, err := cw.w.BE.DB.FindProjectInfoByID(context.Background(), cw.att.project.ID); err == nil && info != nil {
+		cw.att.project = info.ToProject()
+	}
 	after := cw.victimDump()
 	out := code
 	if before != after {
@@ -551,6 +557,17 @@ func c13Eval(cw *c13world, c *c13case, md protoreflect.MethodDescriptor) (string
 	}
 	if bytes.Contains(rb, []byte(c13Marker)) {
 		return "response contains the victim's document content (" + code + ")", out
+	}
+	// nor any id of the victim that the caller did not supply itself (document
+	// keys are the same string on both sides, ids are not; an error message may
+	// echo what was sent)
+	for kind, id := range map[string]string{"docid": cw.vic.docID, "client": cw.vic.clientID, "revision": cw.vic.revisionID, "session": cw.vic.sessionID, "projectid": cw.vic.project.ID.String()} {
+		if id == "" || c.Assign[kind] == "foreign" || c.Cred == "right-secret" {
+			continue
+		}
+		if bytes.Contains(rb, []byte(id)) {
+			return fmt.Sprintf("response contains an id of the victim project that the caller did not supply (%s id, %s)", kind, code), out
+		}
 	}
 	foreignID := false
 	for k, v := range c.Assign {
